@@ -28,6 +28,11 @@ type GenOptions struct {
 	// ksame/S vs ksame/s, kext/E0 vs kext/e0) and pipelines of one signal are named Blue, blue, Red,
 	// red, …: such ids are valid and distinct, the graph must keep them apart.
 	CaseTwins bool
+	// RepeatedExtensions: some extension ids are listed more than once under service::extensions
+	// (validation accepts that): adjacent or non-adjacent repeats of an extension that depends on
+	// another one, of one that others depend on, or of an independent one. The service has one
+	// component per id; it must be started and shut down exactly once, in dependency order.
+	RepeatedExtensions bool
 }
 
 func (o *GenOptions) defaults() {
@@ -330,8 +335,82 @@ func GenTopology(rng *rand.Rand, o GenOptions) *Topology {
 		for _, i := range rng.Perm(n) {
 			t.ServiceExtensions = append(t.ServiceExtensions, ids[i])
 		}
+		if o.RepeatedExtensions && n > 0 {
+			RepeatExtensions(rng, t)
+		}
 	}
 	return t
+}
+
+// RepeatExtensions lists one or two of the service extensions a second (sometimes a third) time:
+// preferably one that has dependencies or one that others depend on; the repeat is inserted right
+// after an existing listing (adjacent), or at the start / end / a random position (non-adjacent).
+func RepeatExtensions(rng *rand.Rand, t *Topology) {
+	if len(t.ServiceExtensions) == 0 {
+		return
+	}
+	var dependents, dependencies, all []string
+	seen := map[string]bool{}
+	for _, id := range t.ServiceExtensions {
+		if seen[id] {
+			continue
+		}
+		seen[id] = true
+		all = append(all, id)
+		if d := cfgStrings(t.Extensions[id], "deps"); len(d) > 0 {
+			dependents = append(dependents, id)
+			for _, x := range d {
+				if !contains(dependencies, x) {
+					dependencies = append(dependencies, x)
+				}
+			}
+		}
+	}
+	sort.Strings(dependencies)
+	for k, n := 0, 1+rng.Intn(2); k < n; k++ {
+		pool := all
+		switch c := rng.Intn(3); {
+		case c == 0 && len(dependents) > 0:
+			pool = dependents
+		case c == 1 && len(dependencies) > 0:
+			pool = dependencies
+		}
+		id := pool[rng.Intn(len(pool))]
+		for r, reps := 0, 1+rng.Intn(4)/3; r < reps; r++ {
+			l := t.ServiceExtensions
+			pos := 0
+			switch rng.Intn(4) {
+			case 0: // adjacent: right after an existing listing of id
+				for i, x := range l {
+					if x == id {
+						pos = i + 1
+						break
+					}
+				}
+			case 1:
+				pos = 0
+			case 2:
+				pos = len(l)
+			default:
+				pos = rng.Intn(len(l) + 1)
+			}
+			t.ServiceExtensions = append(l[:pos:pos], append([]string{id}, l[pos:]...)...)
+		}
+	}
+}
+
+// RepeatedExtensionIDs returns the ids listed more than once under service::extensions with their counts.
+func (t *Topology) RepeatedExtensionIDs() map[string]int {
+	n := map[string]int{}
+	for _, id := range t.ServiceExtensions {
+		n[id]++
+	}
+	for id, c := range n {
+		if c < 2 {
+			delete(n, id)
+		}
+	}
+	return n
 }
 
 // RouteClasses are the kinds of routes a routing connector with N >= 2 downstream pipelines requests.
